@@ -6,5 +6,6 @@ CONSTANTS
   MaxDup = 1
   MaxLen = 4
   MaxTimeouts = 1
+  MaxForged = 2
 INVARIANTS GenInv Dump
 CHECK_DEADLOCK FALSE
